@@ -456,7 +456,7 @@ def extra(tier, rng, workdir):
     # "previously seen or not": a tx of the block whose tx message the tx thread takes while ProcessBlock is inside the
     # block (pause points; gen/txflow.py race_extra): code 108 = no notification with this block's proof
     rx = txflow.race_extra(tier, rng, workdir)
-    fails = [f for f in rx["failures"] if (f.get("expected") or [0])[0] in (104, 108)]  # 104: "new" although seen before
+    fails = [f for f in rx["failures"] if (f.get("expected") or [0])[0] in (104, 105, 108)]  # 104: "new" although seen before; 105: ProcessBlock failed after adding the block
     rcov = {k: v for k, v in rx["coverage"].items() if "block_tx_race" in k}
     return {"failures": fails, "evaluations": sum(v for k, v in rcov.items() if k.endswith("_scenarios")),
             "coverage": {"input_distribution": dict(COVER), "reannounced_with_stale_proof_not_counted_as_C04": note, **rcov}}
